@@ -219,6 +219,11 @@ func (g *G) maybeParen(x Expr, need bool) Expr {
 	return x
 }
 
+// ExtraPassThrough holds function names the harness learnt from the tree
+// under test (words of its source that the language as written down here does
+// not know): they are called like any other function.
+var ExtraPassThrough []string
+
 func (g *G) call(depth int, ctx ECtx) Expr {
 	sub := func() Expr { return g.Expr(depth-1, ctx) }
 	k := g.n("callkind", 10)
@@ -247,6 +252,9 @@ func (g *G) call(depth int, ctx ECtx) Expr {
 		return c
 	}
 	c := &Call{Func: pickFrom(g, "passthrough", PassThrough)}
+	if len(ExtraPassThrough) > 0 && g.chance("learntfunc", 4) {
+		c.Func = pickFrom(g, "learnt", ExtraPassThrough)
+	}
 	for i, n := 0, g.n("nargs", 4); i < n; i++ {
 		c.Args = append(c.Args, sub())
 	}
